@@ -344,6 +344,13 @@ func dstRun(args []string) int {
 					add(fmt.Sprintf("0 */%d * * * ?", m), spb, pv, "gap-every-few-minutes", true)
 					pv = firstMatch(z.loc, &spb, pv)
 				}
+				// (d) every second, from the last seconds before the gap: the search steps over every missing reading (3600 and more)
+				if gap >= 1800 {
+					add("* * * * * ?", tsp{}, tr[0]-1, "gap-every-second", true)
+					add("* * * * * ?", tsp{}, tr[0]-2, "gap-every-second", true)
+					hh := time.Unix(tr[0]+int64(offBefore), 0).UTC().Hour() // the first missing hour
+					add(fmt.Sprintf("* * %d,%d * * ?", hh, (hh+int(gap/3600)+1)%24), tsp{hour: []int{hh, (hh + int(gap/3600) + 1) % 24}}, tr[0]-1-int64(r.Intn(7200)), "gap-every-second", true)
+				}
 				// (c) the last second of the gap and the first second after it both match
 				spc := tsp{sec: []int{0, 59}}
 				add("0,59 * * * * ?", spc, tr[0]-1-int64(r.Intn(3)), "gap-edge-seconds", true)
